@@ -33,8 +33,9 @@ META = {
             "addresses parse back to themselves. The executable models are compared with the rebuilt library; a "
             "disagreement is a concrete failing input since the model is the proved specification.",
     "note": "Trusted: Coq kernel, extraction (ExtrOcamlBasic), OCaml driver, C++ harness, tools/gen_text_tables.py. "
-            "sha256 is a Section variable (values supplied by the run). The <<=/>>= models gather per destination byte "
-            "what the C++ loops scatter per source byte (same per-byte expressions); tied by the correspondence run. "
+            "sha256 is a Section variable (values supplied by the run). <<=, >>= and bits() are modelled as the literal "
+            "C++ loops (scatter with |= into the zeroed array / scan from the top byte) and additionally in a gather "
+            "formulation proved equal. Base58 buffers are kept little-endian (reverse of the C++ vector). "
             "thorough: the 2^32 compact sweep runs inside the harness against a C port of the proved spec (trusted glue, "
             "validated against the extracted model on the quick stream). Items named *_partial in Properties_C18.v are "
             "listed in the evidence under 'partial'.",
@@ -178,7 +179,7 @@ class Gen:
         self.note("u256 boundary operands", len(B))
         # unary ops on every boundary value
         for a in B:
-            for op in ("not", "neg", "inc", "dec", "bits", "low64"):
+            for op in ("not", "neg", "inc", "dec", "bits", "bits_g", "low64"):
                 self.add(op, a)
         for w in (0, 1, 0xff, 0x100, 0xffff, 0x10000, 0xffffffff, 0xfffffffe, 0x80000000, 0x7fffffff, 10, 58, 59):
             self.add("ofu64", w)
@@ -204,10 +205,14 @@ class Gen:
         for db in range(0, 257):
             ds = {(1 << db) >> 1, ((1 << db) - 1), ((1 << db) >> 1) | r.bits(max(db - 1, 0))}
             for d in sorted(ds):
-                for a in (M256, r.bits(256), r.bits(r.range(db, 256)) if db <= 256 else 0, d, (d * r.bits(16) + r.below(max(d, 1))) & M256,
-                          max(d - 1, 0), (d + 1) & M256):
+                dividends = [M256, r.bits(r.range(db, 256)), (d * r.bits(16) + r.below(max(d, 1))) & M256]
+                if thorough:
+                    dividends += [r.bits(256), d, max(d - 1, 0), (d + 1) & M256]
+                else:
+                    dividends.append(r.choice([d, max(d - 1, 0), (d + 1) & M256]))
+                for a in dividends:
                     self.add("div", a, d)
-        self.note("div: divisor bit lengths 0..256 (x3 shapes) x 7 dividends", 257)
+        self.note("div: divisor bit lengths 0..256 (x3 shapes) x %d dividends" % (7 if thorough else 4), 257)
         for a in B[:: (1 if thorough else 5)]:
             self.add("div", a, 0)
             self.add("div", M256, a)
@@ -219,6 +224,9 @@ class Gen:
             for a in shvals:
                 self.add("shl", a, sh)
                 self.add("shr", a, sh)
+            for a in shvals[:2] + shvals[-1:]:     # the gather formulations (proved equal to the literal loops)
+                self.add("shl_g", a, sh)
+                self.add("shr_g", a, sh)
         self.note("shifts 0..300 + uint extremes, per value", len(shvals))
         # random operands
         for _ in range(nrand):
@@ -377,28 +385,33 @@ def run_par(cmd, lines, nchunks, workdir, tag, timeout=3000):
     procs = []
     for fn in files:
         fin = open(fn, "rb")
-        procs.append((subprocess.Popen(cmd, stdin=fin, stdout=subprocess.PIPE, stderr=subprocess.PIPE), fin))
+        fout = open(fn + ".out", "wb")      # to a file: a full pipe would serialise the processes
+        ferr = open(fn + ".err", "wb")
+        procs.append((subprocess.Popen(cmd, stdin=fin, stdout=fout, stderr=ferr), fin, fout, ferr, fn))
     res, orc, errs, rc = {}, [], "", 0
     deadline = time.time() + timeout
-    for p, fin in procs:
+    for p, fin, fout, ferr, fn in procs:
         try:
-            out, err = p.communicate(timeout=max(1, deadline - time.time()))
+            p.wait(timeout=max(1, deadline - time.time()))
         except subprocess.TimeoutExpired:
             p.kill()
-            out, err = p.communicate()
+            p.wait()
             rc = rc or 124
-        fin.close()
+        for f in (fin, fout, ferr):
+            f.close()
         rc = rc or p.returncode
-        errs += err.decode("utf-8", "replace")[-500:]
-        for line in out.decode("utf-8", "replace").split("\n"):
-            if not line:
-                continue
-            if line[0] == "!":
-                i, _, t = line[1:].partition(" ")
-                orc.append((i, t))
-                continue
-            i, _, t = line.partition(" ")
-            res[i] = t
+        errs += open(fn + ".err", "rb").read().decode("utf-8", "replace")[-500:]
+        with open(fn + ".out", "rb") as f:
+            for raw in f:
+                line = raw.decode("utf-8", "replace").rstrip("\n")
+                if not line:
+                    continue
+                if line[0] == "!":
+                    i, _, t = line[1:].partition(" ")
+                    orc.append((i, t))
+                    continue
+                i, _, t = line.partition(" ")
+                res[i] = t
     return rc, res, orc, errs
 
 
@@ -548,7 +561,7 @@ def run(ctx):
     tb = ctx.cov.setdefault("trusted_base", [])
     tb.append("sha256: Section variable of the address theorems; values supplied per case and cross-checked against the library")
     tb.append("tools/gen_text_tables.py: regex parse of the C++ initialisers (fails closed), output coq/Gen/TextTables.v")
-    tb.append("modelled, not verified: the compiled C++; the <<=/>>= models gather per destination byte (C++ scatters per source byte)")
+    tb.append("modelled, not verified: the compiled C++ itself (tied to the models only by this run's comparison)")
     if thorough and not ctx.replay:
         t0 = time.time()
         total, sbad = sweep(ctx, impl, min(16, vlib.NCPU))
